@@ -123,7 +123,7 @@ Section Interp.
              | Err (XInvalid m) =>
                  t0 <- get_ts ;;
                  match failed t0 with Some _ => throw (XInvalid m) | None =>   (* a skip does not undo a failure *)
-                 if Nat.eqb (nd wa) 0
+                 if (match rd wa with [] => true | _ => false end)            (* skipped = used no bits (t.s.pos() unchanged) *)
                  then (* the try stays in the recording and is replayed: that is only
                          faithful when the skip was the action's own decision *)
                       _ <- (if internal_msg m then mark_dirty else ret tt) ;; ret ASkipped
